@@ -171,6 +171,15 @@ theorem lex_total (s : Bytes) :
     | .at p, _ => exact Or.inr ⟨p, rfl⟩
     | .fuel, h => exact absurd h this
 
+/-- the tokens are non-overlapping substrings of the input, in order: read from the last token backwards (`Lex.Chain`), every
+token's text is the slice of the input at its `tok_pos` of length `tok_len`, and every token ends at or before the offset
+of the next one -/
+theorem lex_tokens_in_order (s : Bytes) (ts : List Tok) (h : lex s = .ok ts) : ∃ bound, Chain s bound ts.reverse :=
+  lex_tokens_slices s ts h
+
+example : ∃ ts, lex [0x61, 0x20, 0x2f, 0x2f, 0x62] = .ok ts ∧ ts.map (fun t => (t.pos, t.len)) = [(0, 1), (2, 2), (4, 1)] :=
+  ⟨_, rfl, by decide⟩
+
 /-- every iteration of the loop consumes at least one byte of the input (so no token is empty and the loop ends) -/
 theorem lex_step_progress (st st' : St) (h : lexStep st = .ok st') : st'.rest.length < st.rest.length := lexStep_adv h
 
